@@ -62,3 +62,7 @@ def hexOf (b : ByteArray) : String :=
   b.foldl (fun s x => s.push digits[(x >>> 4).toNat]! |>.push digits[(x &&& 0xf).toNat]!) ""
 
 end Sha256
+
+namespace Sha256
+def hashL (l : List UInt8) : List UInt8 := (hash ⟨l.toArray⟩).toList
+end Sha256
